@@ -63,13 +63,15 @@ def phonon_oracle(ctx, c):
                               [models.QPointData(tuple(float(x) for x in QV[i, j]), [float(x) for x in F[i, j]]) for j in range(nq)]) for i in range(nv)]
     weights = [models.QPointWeight(tuple(float(x) for x in Q[j]), float(W[j])) for j in range(nq)]
     data = models.QHAInputData(nv, nq, npm, c["nm"], c["na"], weights, vols)
-    d = tempfile.mkdtemp(prefix="cijc17-")
-    try:
-        path = os.path.join(d, "input01")
-        ctx.observe(write_energy, path, data, c["comment"], _bucket="C17/phonon/write-crash", _case=c)
-        back = ctx.observe(read_energy, path, _bucket="C17/phonon/read-crash", _case=c)
-    finally:
-        shutil.rmtree(d, ignore_errors=True)
+    from ..datasets import reused_dir
+    d = reused_dir("c17")               # same path as the previous case, rewritten
+    path = os.path.join(d, "input01")
+    ctx.observe(write_energy, path, data, c["comment"], _bucket="C17/phonon/write-crash", _case=c)
+    first = ctx.observe(read_energy, path, _bucket="C17/phonon/read-crash", _case=c)
+    # what a caller does with one parse must not change the next parse of the same file
+    first.volumes[:] = first.volumes[:1]
+    first.weights[:] = []
+    back = ctx.observe(read_energy, path, _bucket="C17/phonon/read-crash", _case=c)
     if (back.nv, back.nq, back.np, back.nm, back.na) != (nv, nq, npm, c["nm"], c["na"]):
         raise PropertyViolation("C17/phonon/counts", "counts read back as %r" % ((back.nv, back.nq, back.np, back.nm, back.na),), c)
     if len(back.volumes) != nv or len(back.weights) != nq:
@@ -157,13 +159,17 @@ def static_oracle(ctx, c):
         tab[:, z] = 0.0
     lat = rng.uniform(0.5, 12, (nrows, 3))
     vref, mass = float(rng.uniform(50, 3000)), float(rng.uniform(1, 2000))
-    d = tempfile.mkdtemp(prefix="cijc17-")
-    try:
-        path = os.path.join(d, "elast.dat")
-        write_static(path, c, vols, tab, lat, vref, mass)
-        data = ctx.observe(read_elast_data, path, _bucket="C17/static/read-crash", _case=c)
-    finally:
-        shutil.rmtree(d, ignore_errors=True)
+    from ..datasets import reused_dir
+    d = reused_dir("c17")
+    path = os.path.join(d, "elast.dat")
+    write_static(path, c, vols, tab, lat, vref, mass)
+    first = ctx.observe(read_elast_data, path, _bucket="C17/static/read-crash", _case=c)
+    # the package itself fills a parse in place (apply_symetry_on_elast_data): a later parse of the same file must still be
+    # the tabulated data
+    for i in range(len(first.volumes)):
+        first.volumes[i] = type(first.volumes[i])(first.volumes[i].volume, {})
+    first.lattice_parmeters[:] = []
+    data = ctx.observe(read_elast_data, path, _bucket="C17/static/read-crash", _case=c)
     if data.vref != vref or data.nv != nrows or data.cellmass != mass:
         raise PropertyViolation("C17/static/header", "header read as %r" % ((data.vref, data.nv, data.cellmass),), c)
     if len(data.volumes) != nrows:
